@@ -82,3 +82,50 @@ Proof.
   - unfold model_ok, model_call_ok, model_prog_sel. rewrite Hf. vm_compute. reflexivity.
   - vm_compute. reflexivity.
 Qed.
+
+(* ---------------------------------------------------------------- the full link (repaired model) *)
+Lemma firstn_len_app : forall A (l m : list A), firstn (length l) (l ++ m) = l.
+Proof. intros. rewrite firstn_app. rewrite Nat.sub_diag. simpl. rewrite firstn_all. apply app_nil_r. Qed.
+
+(* the repaired genotype-encoding model: flatten; view.  Whatever the layout, the observed buffers and the
+   argument's content are those of the initial state *)
+Lemma genotype_fixed_run : forall bufs tgt cow,
+  let s0 := call_init bufs tgt cow in
+  let s1 := run (genotype_prog_fixed (nth tgt bufs [])) s0 in
+  firstn (length bufs) (s_blocks s1) = bufs /\ content s1 (get_reg s1 0) = content s0 (get_reg s0 0).
+Proof.
+  intros bufs tgt cow. destruct cow; unfold run, genotype_prog_fixed; cbn [fold_left step];
+    unfold flatten, content, blk, get_reg, call_init; cbn [s_regs s_blocks r_cow r_blocks nth set_nth map length seq flat_map app].
+  - split.
+    + apply firstn_len_app.
+    + f_equal. rewrite app_nth2 by lia. rewrite Nat.sub_diag. reflexivity.
+  - split; [apply firstn_all|reflexivity].
+Qed.
+
+Theorem model_implies_spec_call14 : fix1_applied = true -> forall c,
+  Z.eqb (k_kind c) 0 = true -> k_site c = 14%Z -> model_ok c = true -> spec_ok c = true.
+Proof.
+  intros Hf c E0 Hs H. unfold model_ok in H. unfold spec_ok. rewrite E0 in *.
+  unfold model_call_ok in H. cbv zeta in H. unfold model_prog_sel in H. rewrite Hf in H.
+  rewrite Hs in H.
+  replace (model_prog_fixed 14 (nth (Z.to_nat (k_target c)) (k_before c) []))
+    with (genotype_prog_fixed (nth (Z.to_nat (k_target c)) (k_before c) [])) in H by reflexivity.
+  destruct (genotype_fixed_run (k_before c) (Z.to_nat (k_target c)) (k_cow c)) as [H1 H2].
+  cbv zeta in H1, H2.
+  apply andb_true_iff in H. destruct H as [H Hr]. apply andb_true_iff in H. destruct H as [Ha Hb].
+  assert (Ha' : zll_eqb (k_before c) (k_after c) = true) by (rewrite <- H1; exact Ha).
+  assert (Hl : zlist_eqb (k_log_before c) (k_log_after c) = true).
+  { match type of H2 with ?y = ?z =>
+      assert (Hyz : zll_eqb y z = true) by (rewrite H2; apply zll_eqb_refl) end.
+    apply eqb_prop in Hb. rewrite <- Hb. exact Hyz. }
+  unfold observed_unchanged. rewrite Ha', Hr, Hl. reflexivity.
+Qed.
+
+Theorem model_implies_spec_full : forall c, model_ok c = true -> spec_ok c = true.
+Proof.
+  intros c H. destruct (Z.eqb (k_kind c) 0) eqn:E0.
+  - destruct (Z.eq_dec (k_site c) 14) as [Hs|Hs].
+    + apply model_implies_spec_call14; auto.
+    + apply model_implies_spec_partial; auto.
+  - apply model_implies_spec_partial; auto. intros E. congruence.
+Qed.
